@@ -1,7 +1,7 @@
 (* Properties_C15.v -- trace and debug symbols report what is actually executing.
    Models: AsmLayout.v (symbols written by the assembler), SimModel.v (lookupSymbol, the trace line prefix). *)
 From Coq Require Import ZArith List String.
-From HexVerif Require Import WMap Isa SimModel SimProofs SimProofs15 AsmModel AsmLayout AsmSpec AsmStatements AsmLayoutProofs AsmSymtabProofs Loader SimTraceText SimTraceTextProofs.
+From HexVerif Require Import WMap Isa SimModel SimProofs SimProofs15 AsmModel AsmLayout AsmSpec AsmStatements AsmLayoutProofs AsmSymtabProofs AsmWalkProofs Loader SimTraceText SimTraceTextProofs.
 Import ListNotations.
 Local Open Scope Z_scope.
 
@@ -12,6 +12,20 @@ Theorem C15_symtab : forall prog locs out,
   check_symtab prog (ao_image out) (ao_syms out) = true.
 Proof. exact symtab_ok. Qed.
 Print Assumptions C15_symtab.
+
+(* "lists every procedure and function of the program once", as an explicit statement (AsmWalkProofs.v): the names of a
+   table the validator accepts -- in particular of the table the assembler model writes -- are the FUNC/PROC directives
+   of the source, once each, in source order *)
+Theorem C15_table_names : forall prog image syms,
+  check_symtab prog image syms = true -> map fst syms = proc_names prog.
+Proof. exact check_symtab_names. Qed.
+Print Assumptions C15_table_names.
+
+Theorem C15_model_table_names : forall prog locs out,
+  Forall wf_directive prog -> assemble_directives prog locs = AsmModel.Ok out -> small (ao_layout out) ->
+  map fst (ao_syms out) = proc_names prog.
+Proof. intros prog locs out Hwf Ha Hs. exact (check_symtab_names _ _ _ (symtab_ok prog locs out Hwf Ha Hs)). Qed.
+Print Assumptions C15_model_table_names.
 
 (* a table that passes the validator -- in particular the table the assembler model writes -- has ascending offsets
    (the hypothesis `asc` of the lookup theorems below); `asc` is non-strict: adjacent entries may share an offset *)
